@@ -72,11 +72,14 @@ var Funcs = map[string]FunctionCall{
 	"deg": simpleFunc(func(v float64) float64 {
 		return v * 180 / math.Pi
 	}),
+	// The timestamp of a sample that is the result of an evaluation is the
+	// evaluation time. Applied to a selector, timestamp() is planned with a
+	// selector that delivers the sample timestamps itself (see SampleTimestamp).
 	"timestamp": func(f FunctionArgs) promql.Sample {
 		return promql.Sample{
 			Point: promql.Point{
 				T: f.StepTime,
-				V: float64(f.Points[0].T) / 1000,
+				V: float64(f.StepTime) / 1000,
 			},
 		}
 	},
@@ -377,6 +380,17 @@ var Funcs = map[string]FunctionCall{
 			},
 		}
 	},
+}
+
+// SampleTimestamp is the function call of timestamp() over an operand that
+// already delivers sample timestamps as values: they are passed through.
+var SampleTimestamp FunctionCall = func(f FunctionArgs) promql.Sample {
+	return promql.Sample{
+		Point: promql.Point{
+			T: f.StepTime,
+			V: f.Points[0].V,
+		},
+	}
 }
 
 func NewFunctionCall(f *parser.Function) (FunctionCall, error) {
